@@ -73,9 +73,10 @@ pub fn gen_algorithm(r: &mut Rng, w: &mut World, allow_ksp: bool, allow_yens_k2:
         }
     };
     w.algorithm = if allow_ksp && r.chance(0.25) {
-        // Yen's algorithm with k >= 2 is a recorded finding (no-progress loop): keep it rare so runs stay fast
+        // (Yen's algorithm with k >= 2 used to panic or loop forever - fixed in /repo, see known_findings.json)
         let yens = r.chance(0.3);
-        let k = if yens && (!allow_yens_k2 || !r.chance(0.15)) { 1 } else { r.range(1, 3) };
+        let _ = allow_yens_k2;
+        let k = r.range(1, 3);
         let mut a = json!({"type": if yens { "yens" } else { "ksp_single_via" }, "k": k, "underlying": base(r)});
         if r.chance(0.4) {
             a["similarity"] = json!({"type": "edge_id_cosine_similarity", "threshold": many_digits(r, 0.3, 0.95)});
